@@ -6,32 +6,52 @@ from vplib import common, oracle
 from props import C17 as F
 
 LEVEL = "proof"
-RULE = ("Coq: Properties/C18.v (partial: fixed-point / idempotence lemmas of the edit algebra and of the modelled "
-        "phases -- no edits = identity, final-newline phase idempotent, whitespace normal form of a gap is a fixed point). "
-        "Dynamic, on the real binary: the C17 generator (parseable programs under random layout perturbation) plus "
-        "unparsable inputs (token deletions / duplications / swaps, random character insertions, truncations). For each "
-        "input x: f1 = format(x) and f2 = format(f1) through the cfg-gated hook op `format` (the function the CLI "
-        "calls); f2 must equal f1; `garden format --check` on a file holding f1 must exit 0 and `garden format` on it "
-        "must print f1 (CLI, every input in thorough, a sample in quick). Inputs on which the front end produces no "
-        "output at all (parser panic or hang) are counted and listed in the notes, not reported as C18 violations "
-        "(C01's subject); a crash on the formatter's OWN output is a violation. "
-        "A case is non-trivial when format(x) != x.")
+RULE = ("Coq: Properties/C18.v over FormatPhases.v (executable models of phases 6-9 of src/format.rs) and "
+        "EditAlgebra.v/Lex.v. Dynamic, on the real binary: the C17 generator (parseable programs under random layout "
+        "perturbation) plus unparsable inputs (token deletions / duplications / swaps, random character insertions, "
+        "truncations). (1) Search: for each input x, f1 = format(x) and f2 = format(f1) through the cfg-gated hook op "
+        "`format` (the function the CLI calls); f2 must equal f1; `garden format --check` on a file holding f1 must "
+        "exit 0 and `garden format` on it must print f1 (CLI, every input in thorough, a sample in quick). Inputs on "
+        "which the front end produces no output at all (parser panic or hang) are counted and listed in the notes, "
+        "not reported as C18 violations (C01's subject); a crash on the formatter's OWN output is a violation. "
+        "(2) Tie of the models: for EVERY formatted input, the extracted model of each of the phases 6, 7, 8, 9 is run "
+        "on that phase's real input text from the hook's per-phase trace (phase 6 also gets the traced toplevel line "
+        "numbers) and its output must equal the real phase's output byte for byte; a mismatch is a broken "
+        "correspondence. Which version of normalize_token_spacing the tree has is read from src/format.rs; the code "
+        "before fix-5 is a broken tie (the theorems model the fixed code). A case is non-trivial when format(x) != x.")
 META = {
-    "technique": ("property-directed search on the real binary (format twice, --check) over generated parseable and "
-                  "unparsable inputs + Coq lemmas about the edit model's fixed points"),
-    "level_text": ("PROVED (Coq, partial): apply_edits_nil (a run that computes no edit returns its input), "
-                   "final_newline_phase_idem_partial (phase 9 of format.rs as modelled -- strip all but one trailing "
-                   "newline, add one to non-empty text -- is idempotent for ALL texts), gap_normal_fixed_point_partial and "
-                   "gap_edit_result_is_fixed_partial (a token-gap phase of the shape of phases 7/8, which rewrites a gap "
-                   "to a whitespace determined by the two token texts, computes no edit on a gap that already is the "
-                   "desired one, in particular on a gap it wrote), gap_edits_keep_tokens_for_next_run_partial (after gap "
-                   "edits meeting C17's conditions the next run sees the same token and comment texts). NOT PROVED: "
-                   "idempotence of the whole pipeline -- the indentation / blank-line / signature phases are AST-driven "
-                   "and not modelled; `format(format x) = format x` and `--check` acceptance are established by search "
-                   "only (every generated input, parseable or not)."),
-    "level_note": ("Trusted: the cfg-gated hook op `format` calls the same `format::format` as the CLI (cross-checked on "
-                   "a sample through the CLI, which additionally strips a `// args: ` reftest footer and re-terminates "
-                   "lines with LF before formatting); Python generator."),
+    "technique": ("Coq proofs over executable models of the text-level formatter phases (6-9) + differential execution "
+                  "of the extracted phase models against the real phases on every formatted input (per-phase trace of "
+                  "the hook) + property-directed search on the real binary (format twice, --check) over generated "
+                  "parseable and unparsable inputs"),
+    "level_text": ("PROVED (Coq) for the modelled phases 6-9 of src/format.rs: phase6_lines_idem -- normalize_blank_lines, "
+                   "as a function on lines annotated with the two facts it looks up by line number, is idempotent on EVERY "
+                   "input; phase7_segs_idem, phase8_segs_idem, phase78_segs_idem, phase7_stable_after_phase8 -- "
+                   "fix_type_annotation_spacing and normalize_token_spacing as gap rewritings on the lexed segments are "
+                   "idempotent, alone and composed, on EVERY input (phase 8 never touches a gap phase 7 wrote); "
+                   "phase7_idem_no_unclosed, phase8_idem_no_unclosed, phases_7_8_composition_idem_partial -- the same as "
+                   "text -> text functions whose second run re-lexes the output, for every source in which the lexer "
+                   "meets no unclosed string literal (re-lexing the output finds exactly the rewritten segments: needs "
+                   "the locality of Lex.lex proved for C17 plus maximal-munch lemmas for the number/symbol scanners); "
+                   "phases_7_8_keep_tokens, phases_7_8_keep_gaps_up_to_whitespace -- they keep the token texts, the "
+                   "trailing gap, and every gap that is not whitespace only (so every comment); "
+                   "final_newline_phase_idem_partial (phase 9 idempotent, all texts), final_newline_noop_partial; "
+                   "phase8_orig_not_idempotent -- the code before fix-5 is NOT idempotent (witness found on the model, "
+                   "confirmed on the binary, fixed). Earlier partial lemmas: apply_edits_nil, "
+                   "gap_normal_fixed_point_partial, gap_edit_result_is_fixed_partial, "
+                   "gap_edits_keep_tokens_for_next_run_partial. SEARCH ONLY (not proved): phases 0-5 (signature "
+                   "wrapping, AST-driven indentation and span edits, comment indentation); the composition of phases 6 "
+                   "and 9 with 7/8 as text functions; that the per-line facts phase 6 uses stay attached to the same "
+                   "lines in the second run (same tree: C17); sources with an unclosed string literal for the text-level "
+                   "7/8 theorems; hence idempotence of the whole pipeline, `format(format x) = format x`, and `--check` "
+                   "acceptance are established by search (every generated input, parseable or not)."),
+    "level_note": ("Trusted: Coq kernel; coq/Lex.v as the meaning of lex.rs (C01/C23); coq/FormatPhases.v as the meaning of "
+                   "phases 6-9 (Rust str::lines/trim/char::is_whitespace modelled, not verified) -- tied per run: the "
+                   "extracted phases reproduce the real phase outputs on every formatted input of the run; extraction + "
+                   "ocaml/ops_editalgebra.ml; the cfg-gated hook op `format` (calls the same `format::format` as the CLI, "
+                   "cross-checked on a sample through the CLI, which additionally strips a `// args: ` reftest footer and "
+                   "re-terminates lines with LF) and its phase trace; Python generator. Phase runs on texts containing "
+                   "CR are not compared (crlf-input known finding)."),
     "design_ref": "DESIGN.md §5 C18",
 }
 
@@ -207,6 +227,14 @@ def phase_correspondence(ctx, mdl, traces, p8):
             return
         if a != b:
             ctx.stat("phase %s: runs that changed the text" % op)
+    # how many phase-7 inputs meet the hypothesis of the text-level theorems
+    p7 = [a for (op, a, b, tops, src) in meta if op == "7"]
+    rc, res, err = common.run_lines(mdl, [], ["nounclosed\t%s" % common.hexs(a) for a in p7], shards=16, timeout=900)
+    for a, line in zip(p7, res):
+        if line.strip() == "1":
+            ctx.stat("phase 7/8 inputs without unclosed string (text-level idempotence theorems apply)")
+        else:
+            ctx.stat("phase 7/8 inputs with an unclosed string (idempotence by search only)")
 
 
 def classify(src, f1, f2, det):
@@ -258,7 +286,9 @@ def shrink(exe, src, key, budget=40):
 
 
 def run(ctx):
-    ctx.trusted = ["Coq kernel 8.16.1 (partial lemmas only)", "cfg-gated hook op format = format::format",
+    ctx.trusted = ["Coq kernel 8.16.1", "coq/Lex.v, coq/FormatPhases.v as the meaning of lex.rs and of phases 6-9 of format.rs "
+                   "(tied by differential runs)", "extraction + ocaml/ops_editalgebra.ml",
+                   "cfg-gated hook op format = format::format, with its per-phase trace",
                    "tools/props/C17.py generator, tools/props/C18.py mutations"]
     ctx.coq("Properties/C18.v")
     exe = ctx.impl()
@@ -337,7 +367,8 @@ def run(ctx):
                       {"input": s, "observed": {"format_once": f1, "cli": what},
                        "expected": "--check exits 0 and format prints the file unchanged",
                        "cli_command": "garden format f > g; garden format --check g"})
-    ctx.notes.append("whole-pipeline idempotence is established by search, not proved; Coq lemmas are partial (see level_text)")
+    ctx.notes.append("phases 6-9 are modelled, proved idempotent (see level_text for the exact statements) and tied per run; "
+                     "phases 0-5 and the idempotence of the whole pipeline are established by search, not proved")
 
 
 def replay(ctx, rp):
